@@ -412,6 +412,7 @@ class Diff:
         self.outkinds = {}
         self.distinct = set()
         self.reports = 0
+        self.harmless_reports = 0
         self.max_reports = 3
         self.failing_cases = 0
         self.skipped = 0
@@ -482,8 +483,15 @@ class Diff:
                 continue
             bad += 1
             self.failing_cases += 1
-            self.reports += 1
-            self.report(name, c)
+            verdict = self.report(name, c)
+            # differences that do not violate the property itself are kept (at most two) but do not
+            # end the search: a later case may show the property failing on a concrete input
+            if verdict == "violation" or crash is not None:
+                self.reports += 1
+            else:
+                self.harmless_reports += 1
+                if self.harmless_reports > 2:
+                    self.ctx.violations.pop()
         self.fail_spent += time.time() - t_fail
         return bad
 
@@ -492,8 +500,20 @@ class Diff:
         head, body = case[:1], case[1:]
         saved = self.base_timeout
         self.base_timeout = 4
+        # shrink only towards inputs that fail in the same way (same signature), so that the replay
+        # shows the failure that was found and not an unrelated difference of a mangled input
+        impl0, crash0, _, model0 = self.both(case)
+        sig0 = crash0 if crash0 else self.prop.classify(case, impl0, crash0, model0)[2]
+
+        def same_failure(lines):
+            impl, crash, info, model = self.both(lines)
+            if crash is None and first_diff(impl, model) is None and not (
+                    self.line_monitor and any(self.line_monitor(l) for l in impl)):
+                return False
+            sig = crash if crash else self.prop.classify(lines, impl, crash, model)[2]
+            return sig == sig0
         try:
-            small = head + ddmin(body, lambda b: self.differs(head + b)) if len(body) > 1 else case
+            small = head + ddmin(body, lambda b: same_failure(head + b)) if len(body) > 1 else case
         finally:
             self.base_timeout = saved
         impl, crash, info, model = self.both(small)
@@ -508,6 +528,7 @@ class Diff:
         })
         ctx.violations.append({"signature": sig, "replay": replay, "why": why,
                                "found_input": verdict == "violation"})
+        return verdict
 
 
 def save_replay(ctx, obj):
